@@ -9,8 +9,18 @@ PROP = dict(
     assumptions=['default piece counts (ParseTPS always assumes them)'],
 )
 MANIFEST = dict(
-    text="Coq theorem cell_roundtrip: the text of one square parses back to exactly that square, for every well-formed square of any height. "
+    text="Coq theorems (no admits) over the code-shaped models of ptn/tps.go and tak.FromSquares: "
+         "tps_format_parse - for every position value of size 3..8 with 0 <= move (only the uint8/uint64 ranges of Height/Stacks assumed) "
+         "ParseTPS accepts FormatTPS's text and returns a position with the same squares (Position.At), ply, side to move, the from-scratch "
+         "hash, and reserves = default counts minus the pieces on the board; tps_format_parse_equal - on canonically represented positions "
+         "whose reserves match the board the result is the position itself with black_wins_ties cleared (Equal both ways, same Hash, "
+         "reserves, side, ply); format_render - FormatTPS is the TPS grammar rendering of the squares; tps_parse_format - every canonical "
+         "string (rendering of a 3..8 board, 0 <= ply < 2^63) parses and re-formats to itself; layers: square, row (maximal runs x/x2..x9), "
+         "board (rows top first), Atoi/%d, move-number arithmetic. A concrete 5x5 position (7-high stack under a capstone, wall, lone "
+         "capstone) satisfies every hypothesis. "
          "The models of FormatTPS / ParseTPS / FromSquares / Equal / Hash are run against the implementation on every generated position and "
          "string (texts, parsed positions bit for bit, reserves, hash), and a Go oracle checks the round-trip clauses of the property directly.",
-    ref='5.10', technique='Coq proof (square-level round trip; row/board layers pending) + model/implementation differential + round-trip oracle',
-    note="Trusted: Coq kernel, extraction, transcription of ptn/tps.go and tak.FromSquares (validated by execution). Full tps_format_parse / tps_parse_format theorems not yet proved (partial).")
+    ref='5.10', technique='Coq proof (both round-trip directions, all layers) + model/implementation differential + round-trip oracle',
+    note="Trusted: Coq kernel, extraction, transcription of ptn/tps.go and tak.FromSquares (validated by execution). "
+         "Not proved: that every position reachable by Move satisfies reserves_match_board (rep_ok follows from the C01 invariant pos_ok); "
+         "negative ply is excluded (FormatTPS/ParseTPS do not round-trip it); black_wins_ties is not part of TPS and comes back false.")
